@@ -195,9 +195,13 @@ func (c *Case) Exec(t *eng.T) {
 			}
 			want = printed(res) + ";" + printed(res) + ";" + tf
 		}
-	case "reeval":
+	case "reeval", "macro-in-loop":
 		// the same written expression evaluated once per loop pass with OTHER values of the names it uses
 		src = "{% for s in svals %}{% for n in nvals %}{{ " + expr + " }};{% endfor %}{% endfor %}"
+		if c.Pos == "macro-in-loop" {
+			// ... inside a macro that is defined anew in every pass (chain and default in the macro's scope)
+			src = "{% for s in svals %}{% for n in nvals %}{% macro mm(p, d=" + expr + ") %}{{ p" + c.chainSrc() + " }}~{{ d }}{% endmacro %}{{ mm(" + c.Input + ") }};{% endfor %}{% endfor %}"
+		}
 		if oerr == nil {
 			var b strings.Builder
 			for _, sv := range ctx["svals"].([]string) {
@@ -211,6 +215,9 @@ func (c *Case) Exec(t *eng.T) {
 					if e2 != nil {
 						oerr = e2
 						break
+					}
+					if c.Pos == "macro-in-loop" {
+						b.WriteString(printed(r2) + "~")
 					}
 					b.WriteString(printed(r2) + ";")
 				}
@@ -533,7 +540,7 @@ type filt struct {
 
 func chainFilters() []filt {
 	return []filt{
-		{"upper", nil}, {"lower", nil}, {"capfirst", nil}, {"cut", []string{`" "`, "q"}}, {"add", []string{`"x"`, "2", "two"}},
+		{"upper", nil}, {"lower", nil}, {"capfirst", nil}, {"cut", []string{`" "`, "q"}}, {"add", []string{`"x"`, "2", "two", "010"}},
 		{"length", nil}, {"default", []string{`"d"`}}, {"truncatechars", []string{"4"}}, {"first", nil}, {"last", nil},
 		{"slice", []string{`"1:3"`}}, {"center", []string{"7"}}, {"wordcount", nil}, {"join", []string{`"-"`, "sep"}},
 		// filters whose result depends on an OPTIONAL parameter, written with and without it
@@ -552,8 +559,8 @@ func run(r *eng.Runner) {
 			calls = append(calls, FC{Name: f.name, Arg: a}) // a == "" : written without parameter
 		}
 	}
-	inputs := []string{"s", "l", "n", "e", "missing", `"Lit q"`, "7", "m.k", "fn()", `"12.34"`, "1", `[s, "x"]`, `[n, two]`, "mv.k", "lv.1", "anyl.0", "anyl.1", "st.V"}
-	positions := []string{"output", "if", "for", "with", "set", "macro-arg", "macro-default", "filter-tag", "scoped-arg", "subscript", "binds-tighter", "with-sibling", "with-sibling-old", "macro-arg-first", "call-arg-first", "array-item-first", "reeval", "loop-var", "omitted-param-scope"}
+	inputs := []string{"s", "l", "n", "e", "missing", `"Lit q"`, "7", "m.k", "fn()", `"12.34"`, "1", `[s, "x"]`, `[n, two]`, "mv.k", "lv.1", "anyl.0", "anyl.1", "st.V", "010"}
+	positions := []string{"output", "if", "for", "with", "set", "macro-arg", "macro-default", "filter-tag", "scoped-arg", "subscript", "binds-tighter", "with-sibling", "with-sibling-old", "macro-arg-first", "call-arg-first", "array-item-first", "reeval", "loop-var", "omitted-param-scope", "macro-in-loop"}
 	maxLen := 3
 	if !r.Quick() {
 		maxLen = 4
